@@ -4,7 +4,7 @@
 From MV Require Import Base.Strs Options.Kinds Options.Store Options.Init Options.Spec
                        Options.Proofs Options.Precedence Options.SubMerge Options.SubApply Options.Final
                        Options.Buildtype Options.TopProject Options.YieldInv
-                       Options.Extensions.
+                       Options.Extensions Options.MachineFile Options.MachineFileProofs.
 
 (* ---- "A value violating an option's type, choices or range is always rejected
         and a stored value always satisfies them." *)
@@ -469,3 +469,41 @@ Theorem C07_deprecated_name_sets_both_options : forall f s k v n rk o s' ch,
     (forall x, aslot s' x = apply_wr_a (set_wr s k v) (apply_wr_a (set_wr s (evolve_name k n) v1) (aslot s)) x).
 Proof. exact deprecated_name_sets_both. Qed.
 Print Assumptions C07_deprecated_name_sets_both_options.
+
+(* ---- machine files: from entry text, section and file to the option key
+   (OptionKey.from_string, Environment.mfilestr2key, _load_machine_file_options, Environment.__init__) *)
+Theorem C07_machine_file_key : forall s sp m k,
+  mfilestr2key s sp m = Ok k ->
+  exists k0, from_string s = Ok k0 /\ sub_truthy k0 = false /\
+    kname k = kname k0 /\
+    ksub k = (if str_truthy sp then sp else ksub k0) /\
+    kmach k = (match m with Build => Build | Host => kmach k0 end).
+Proof. exact mfilestr2key_spec. Qed.
+Print Assumptions C07_machine_file_key.
+
+(* an entry of a [sub:built-in options] / [sub:project options] section is stored under a key
+   that carries subproject sub and the written name; its machine is build exactly when the file
+   is read for the build machine (the native file of a cross build) or the text says build. *)
+Theorem C07_machine_file_sub_section_entry_key : forall m cfg res k v,
+  load_sections [] m cfg = Ok res -> dget res k = Some v ->
+  exists name values subp sect s k0,
+    In (name, values) cfg /\
+    (match split_first_colon name [] with Some (a, b) => (a, b) | None => ([], name) end) = (subp, sect) /\
+    In (s, v) values /\ from_string s = Ok k0 /\
+    kname k = kname k0 /\
+    (subp <> [] -> ksub k = Some subp) /\
+    kmach k = (match m with Build => Build | Host => kmach k0 end).
+Proof. exact sub_section_entry_key. Qed.
+Print Assumptions C07_machine_file_sub_section_entry_key.
+
+Theorem C07_native_file_in_cross_build_gives_build_keys : forall cfg res,
+  load_machine_file_options [] cfg Build = Ok res -> Forall (fun e => kmach (fst e) = Build) res.
+Proof. exact native_file_in_cross_build_gives_build_keys. Qed.
+Print Assumptions C07_native_file_in_cross_build_gives_build_keys.
+
+(* ... and of those only per-machine options survive in Environment.options *)
+Theorem C07_machine_file_build_values_only_for_per_machine_options : forall c n x d,
+  env_options c n x = Ok d ->
+  Forall (fun e => kmach (fst e) = Build -> is_per_machine_option (fst e) = true) d.
+Proof. exact env_options_build_keys_are_per_machine. Qed.
+Print Assumptions C07_machine_file_build_values_only_for_per_machine_options.
